@@ -5,8 +5,12 @@
   and MODIFIED iff the stored Word differs from the previous content; a write that no device accepts, a rejected
   access and every untracked access leave the observer unchanged; `step_in` and the run calls start from the
   empty observer whatever it held before.
+  Whole steps and runs (`stepIn_observer_exact`, `run_observer_exact`; Lemmas/ObsInv.lean, a calculus over every instruction):
+  the observer equals the record of the accesses made (the model's ghost access log): READ at exactly the performed reads,
+  WRITTEN (below the I/O page) at exactly the performed writes, MODIFIED only with WRITTEN.
 -/
 import Lc3V.Props.C08
+import Lc3V.Lemmas.ObsInv
 namespace Lc3V.C28
 open Lc3V Sim SimM
 
@@ -117,11 +121,42 @@ theorem stepIn_clears (s : Sim) (o : Std.TreeMap Nat Nat) : stepIn { s with obse
 theorem runWhile_clears (s : Sim) (o : Std.TreeMap Nat Nat) (tw : Tripwire) (fuel : Nat) :
     runWhile tw fuel { s with observer := o } = runWhile tw fuel s := rfl
 
+/-! ### whole steps and runs: the observer is exactly the record of the accesses made -/
+
+/-- the empty observer and the empty access log agree -/
+theorem obs_inv_start (s : Sim) : OInv { s with observer := {}, log := [] } := by
+  intro a
+  refine ⟨?_, fun _ => ?_, ?_⟩ <;> simp [obsGet]
+
+/-- **after `step_in`** (which starts from the empty observer): READ is marked at exactly the addresses of the reads the step
+    performed (fetch, data reads, indirect pointers, vector-table entries, RTI pops — every `read_mem` of the step, all made
+    through tracked contexts); below the I/O page WRITTEN is marked at exactly the addresses of the writes it performed;
+    MODIFIED only ever accompanies WRITTEN.  Rejected accesses mark nothing. -/
+theorem stepIn_observer_exact (s : Sim) : OInv (stepIn s).2 := by
+  have h := step_obs_inv _ (obs_inv_start s)
+  unfold stepIn
+  dsimp only
+  rcases hst : Sim.step { s with observer := {}, log := [] } with ⟨r, s'⟩
+  rw [hst] at h
+  cases r with
+  | ok u => exact h
+  | error b => cases b <;> exact h
+
+/-- the same after a run of the event loop from the empty observer (any tripwire, any number of iterations) -/
+theorem run_observer_exact (tw : Tripwire) (fuel : Nat) (s : Sim) (r : Except SimErr Pause) (s' : Sim)
+    (h : runLoop tw fuel 1 { s with observer := {}, log := [], pause := .unsuccessful, mcr := true } = some (r, s')) : OInv s' := by
+  have h0 : OInv ({ s with observer := {}, log := [], pause := .unsuccessful, mcr := true } : Sim) := by
+    intro a
+    refine ⟨?_, fun _ => ?_, ?_⟩ <;> simp [obsGet]
+  have := runLoop_obs_inv tw fuel 1 _ h0
+  rw [h] at this
+  exact this
+
 example : obsGet (obsUpdate (obsUpdate {} 0x3000 OBS_READ) 0x3000 OBS_WRITTEN) 0x3000 = 3 := by
   rw [obsGet_update, obsGet_update]; simp [obsGet, OBS_READ, OBS_WRITTEN]
 
 def obligations : List Lean.Name :=
   [``obsGet_update, ``read_marks, ``read_untracked, ``write_untracked, ``ioWritePart_observer, ``violation_unrecorded, ``write_marks,
-   ``stepIn_clears, ``runWhile_clears]
+   ``stepIn_clears, ``runWhile_clears, ``stepIn_observer_exact, ``run_observer_exact, ``Lc3V.step_obs_inv]
 
 end Lc3V.C28
